@@ -75,51 +75,6 @@ Proof. intro H. unfold stop_startd in H. mi H; so_done. Qed.
 Lemma api_commit_so s r s' o : api_commit s = (r, s', o) -> SO s s' o.
 Proof. intro H. unfold api_commit in H. mi H; use commit_so; so_done. Qed.
 
-Section RecSO.
-Variable f : nat.
-Hypothesis IH : forall k s r s' o, run f k s = (r, s', o) -> SO s s' o.
-
-Ltac specs :=
-  use IH; use startd_errback_so; use handle_auto_commit_error_so; use handle_processor_error_so; use send_commit_request_so;
-  use commit_so; use auto_commit_so; use proc_chain_so; use pop_plan_so; use interrupted_so; use retry_fetch_so;
-  use stop_req_so; use stop_mblock_so; use stop_rcall_so; use stop_ccall_so; use stop_looper_so; use stop_susp_so;
-  use stop_startd_so; use api_commit_so;
-  repeat match goal with
-  | E : emit_shutd _ _ = _ |- _ => apply emit_shutd_so in E; [| try reflexivity; match goal with |- context [match ?x with _ => _ end] => destruct x end; reflexivity]
-  end.
-
-Lemma api_stop_so s r s' o : api_stop (run f) s = (r, s', o) -> SO s s' o.
-Proof. intro H. unfold api_stop in H. mi H; specs; so_done. Qed.
-Lemma handle_commit_error_so fk i a s r s' o : handle_commit_error (run f) fk i a s = (r, s', o) -> SO s s' o.
-Proof. intro H. unfold handle_commit_error in H. mi H; specs; so_done. Qed.
-Lemma fire_all_so cr : forall ds s r s' o, fire_all (run f) ds cr s = (r, s', o) -> SO s s' o.
-Proof.
-  induction ds as [|d ds IHds]; intros s r s' o H; cbn [fire_all] in H.
-  - mi H. so_done.
-  - mi H; specs; use IHds; so_done.
-Qed.
-Lemma finish_block_so s r s' o : finish_block (run f) s = (r, s', o) -> SO s s' o.
-Proof. intro H. unfold finish_block in H. mi H; specs; so_done. Qed.
-Lemma stop_proc_so s r s' o : stop_proc (run f) s = (r, s', o) -> SO s s' o.
-Proof. intro H. unfold stop_proc in H. mi H; specs; so_done. Qed.
-Lemma stop_creq_so s r s' o : stop_creq (run f) s = (r, s', o) -> SO s s' o.
-Proof. intro H. unfold stop_creq in H. mi H; use handle_commit_error_so; so_done. Qed.
-
-Ltac specs2 := specs; use api_stop_so; use handle_commit_error_so; use fire_all_so; use finish_block_so; use stop_proc_so; use stop_creq_so.
-
-Lemma body_so k s r s' o : body (run f) k s = (r, s', o) -> SO s s' o.
-Proof.
-  intro H. destruct k; cbn [body] in H; mi H; specs2; so_done.
-Qed.
-End RecSO.
-
-Theorem run_so fuel k s r s' o : run fuel k s = (r, s', o) -> SO s s' o.
-Proof.
-  intro H. refine (run_ind (fun _ _ => True) (fun _ s _ s' o => SO s s' o) _ _ fuel k s r s' o I H); clear.
-  - intros k s _. unfold SO. cbn. lia.
-  - intros f IH k s r s' o _ H. eapply body_so; eauto.
-Qed.
-
 (* ---- outcomes are held back (s_pend) only inside start() / shutdown(): nested executions keep the marker and,
    outside those two API calls, the list *)
 Definition IP (s s' : state) : Prop :=
@@ -211,6 +166,11 @@ Ltac specs :=
   end.
 Lemma api_stop_ip s r s' o : api_stop (run f) s = (r, s', o) -> IP s s'.
 Proof. intro H. unfold api_stop in H. mi H; specs; ip_chain. Qed.
+Lemma api_shutdown_ip s r s' o : api_shutdown (run f) s = (r, s', o) -> IP s s'.
+Proof.
+  intro H. unfold api_shutdown in H. mi H; split_state_if; specs; try (solve [ip_chain]).
+  all: split; [|split]; psimpl; auto.
+Qed.
 Lemma handle_commit_error_ip fk i a s r s' o : handle_commit_error (run f) fk i a s = (r, s', o) -> IP s s'.
 Proof. intro H. unfold handle_commit_error in H. mi H; specs; ip_chain. Qed.
 Lemma fire_all_ip cr : forall ds s r s' o, fire_all (run f) ds cr s = (r, s', o) -> IP s s'.
@@ -225,7 +185,7 @@ Lemma stop_proc_ip s r s' o : stop_proc (run f) s = (r, s', o) -> IP s s'.
 Proof. intro H. unfold stop_proc in H. mi H; specs; ip_chain. Qed.
 Lemma stop_creq_ip s r s' o : stop_creq (run f) s = (r, s', o) -> IP s s'.
 Proof. intro H. unfold stop_creq in H. mi H; use handle_commit_error_ip; ip_chain. Qed.
-Ltac specs2 := specs; use api_stop_ip; use handle_commit_error_ip; use fire_all_ip; use finish_block_ip; use stop_proc_ip; use stop_creq_ip.
+Ltac specs2 := specs; use api_stop_ip; use api_shutdown_ip; use handle_commit_error_ip; use fire_all_ip; use finish_block_ip; use stop_proc_ip; use stop_creq_ip.
 Lemma body_ip k s r s' o : body (run f) k s = (r, s', o) -> IP s s'.
 Proof. intro H. destruct k; cbn [body] in H; mi H; specs2; ip_chain. Qed.
 End RecIP.
@@ -236,6 +196,60 @@ Proof.
   - intros k s _. apply IP_refl.
   - intros f IH k s r s' o _ H. eapply body_ip; eauto.
 Qed.
+
+Section RecSO.
+Variable f : nat.
+Hypothesis IH : forall k s r s' o, run f k s = (r, s', o) -> SO s s' o.
+
+Ltac specs :=
+  use IH; use startd_errback_so; use handle_auto_commit_error_so; use handle_processor_error_so; use send_commit_request_so;
+  use commit_so; use auto_commit_so; use proc_chain_so; use pop_plan_so; use interrupted_so; use retry_fetch_so;
+  use stop_req_so; use stop_mblock_so; use stop_rcall_so; use stop_ccall_so; use stop_looper_so; use stop_susp_so;
+  use stop_startd_so; use api_commit_so;
+  repeat match goal with
+  | E : emit_shutd _ _ = _ |- _ => apply emit_shutd_so in E; [| try reflexivity; match goal with |- context [match ?x with _ => _ end] => destruct x end; reflexivity]
+  end.
+
+Lemma api_stop_so s r s' o : api_stop (run f) s = (r, s', o) -> SO s s' o.
+Proof. intro H. unfold api_stop in H. mi H; specs; so_done. Qed.
+Lemma api_shutdown_so s r s' o : api_shutdown (run f) s = (r, s', o) -> SO s s' o.
+Proof.
+  intro H. unfold api_shutdown in H. mi H; split_state_if.
+  all: repeat match goal with E : run f _ _ = _ |- _ =>
+         let Q := fresh "Q" in pose proof (run_ip _ _ _ _ _ _ E) as (_ & _ & Q); psimpl;
+         specialize (Q ltac:(discriminate)); apply IH in E end.
+  all: so_done.
+Qed.
+Lemma handle_commit_error_so fk i a s r s' o : handle_commit_error (run f) fk i a s = (r, s', o) -> SO s s' o.
+Proof. intro H. unfold handle_commit_error in H. mi H; specs; so_done. Qed.
+Lemma fire_all_so cr : forall ds s r s' o, fire_all (run f) ds cr s = (r, s', o) -> SO s s' o.
+Proof.
+  induction ds as [|d ds IHds]; intros s r s' o H; cbn [fire_all] in H.
+  - mi H. so_done.
+  - mi H; specs; use IHds; so_done.
+Qed.
+Lemma finish_block_so s r s' o : finish_block (run f) s = (r, s', o) -> SO s s' o.
+Proof. intro H. unfold finish_block in H. mi H; specs; so_done. Qed.
+Lemma stop_proc_so s r s' o : stop_proc (run f) s = (r, s', o) -> SO s s' o.
+Proof. intro H. unfold stop_proc in H. mi H; specs; so_done. Qed.
+Lemma stop_creq_so s r s' o : stop_creq (run f) s = (r, s', o) -> SO s s' o.
+Proof. intro H. unfold stop_creq in H. mi H; use handle_commit_error_so; so_done. Qed.
+
+Ltac specs2 := specs; use api_stop_so; use api_shutdown_so; use handle_commit_error_so; use fire_all_so; use finish_block_so; use stop_proc_so; use stop_creq_so.
+
+Lemma body_so k s r s' o : body (run f) k s = (r, s', o) -> SO s s' o.
+Proof.
+  intro H. destruct k; cbn [body] in H; mi H; specs2; so_done.
+Qed.
+End RecSO.
+
+Theorem run_so fuel k s r s' o : run fuel k s = (r, s', o) -> SO s s' o.
+Proof.
+  intro H. refine (run_ind (fun _ _ => True) (fun _ s _ s' o => SO s s' o) _ _ fuel k s r s' o I H); clear.
+  - intros k s _. unfold SO. cbn. lia.
+  - intros f IH k s r s' o _ H. eapply body_so; eauto.
+Qed.
+
 
 (* ---- both facts together, for executions that begin outside start() / shutdown() *)
 Definition SO0 (s s' : state) (o : list output) : Prop :=
